@@ -15,6 +15,7 @@ import (
 	"go/token"
 	"go/types"
 	"reflect"
+	"regexp"
 	"unsafe"
 
 	"golang.org/x/tools/go/ssa"
@@ -239,8 +240,12 @@ func ext۰reflect۰rtype۰Size(fr *frame, args []value) value {
 	return uintptr(fr.i.sizes.Sizeof(args[0].(rtype).t))
 }
 
+var anyTokenRe = regexp.MustCompile(`\bany\b`)
+
 func ext۰reflect۰rtype۰String(fr *frame, args []value) value {
-	return types.TypeString(args[0].(rtype).t, func(p *types.Package) string { return p.Name() })
+	s := types.TypeString(args[0].(rtype).t, func(p *types.Package) string { return p.Name() })
+	// reflect spells the empty interface "interface {}"
+	return anyTokenRe.ReplaceAllString(s, "interface {}")
 }
 
 func ext۰reflect۰rtype۰Name(fr *frame, args []value) value {
